@@ -208,18 +208,24 @@ End One.
          channel whose interest is empty;
      H6  a TcpClient is destroyed on its loop thread (CliDestroy), not on a foreign thread
          (XBegin _ _ ADtor; XStore; XEnq) (finding F-13, recorded by C12/C08);
-     H7  when ~TcpServer runs no io loop is inside a drain, i.e. every io thread is in poll() /
-         dispatching events and not between the swap of doPendingFunctors and its next evaluation
-         of `while (!quit_)` (io_idle: q_batch = [], q_spent = [], callingPendingFunctors_ = false
-         for every loop 1..nio).  ~TcpServer hands connectDestroyed to the io loops and then
-         destroys threadPool_: ~EventLoopThread stores quit_ and joins; EventLoop::loop() has no
-         drain after its while loop, so a hand-off that lands behind a running batch is destroyed
-         unrun with the EventLoop (C02_server_destroy_drops_queued_destroy_refuted);
+     H7  an io loop of the destroyed server does not leave loop() while a connectEstablished /
+         connectDestroyed hand-off is still in its pendingFunctors_ (no_handoff).  ~TcpServer is a
+         LOOP of runInLoop hand-offs (one SrvDestroy step per live entry of connections_, then one
+         for "the members die": threadPool_ -> ~EventLoopThread: quit(), join()); EventLoop::loop()
+         has no drain after its while loop, so a hand-off that reaches the queue after the loop's
+         last swap is destroyed unrun with the EventLoop.  H7 is NOT something a user can establish
+         for an io loop with two or more live connections: the wakeup() of the first hand-off lets
+         the io thread swap a batch before the second hand-off is queued (w_pool_d: every op of
+         ~TcpServer is accepted under H1-H8 from a state in which nothing is going on, and the exit
+         is the Fault).  It is the negation of finding F-25; the theorems below that carry
+         _partial say what holds when F-25 does not strike;
      H8  no user reference to, and no foreign call on, a live connection of an io loop is
          outstanding when that loop leaves loop(), and no foreign call enqueues on a loop that is
          gone (a TcpConnection must not outlive its EventLoop: residue R-3, the model does not
          represent the storage of an EventLoop).
-   The pool's tear-down in the model: s_stop = j >= 1 means io loops 1..j-1 are gone, io loop j
+   ~TcpServer in the model: SrvDestroy = one iteration of the destructor's loop (the first live entry of connections_
+   is reset and its connectDestroyed runs inline / is queued; s_dying), and, when no entry is left, the death of the
+   members (s_srv false, s_stop 1).  The pool's tear-down: s_stop = j >= 1 means io loops 1..j-1 are gone, io loop j
    has quit_ set; EndBatch of a quitting loop is its exit (its queue is dropped, the dropped
    functors' references die on that thread, the next loop is told to quit).  Not modelled: the
    base thread is blocked in join() meanwhile (the model lets it run: more schedules, not fewer).
@@ -345,38 +351,48 @@ Print Assumptions C02_pool_exit_destroys_partial.
 
 Theorem C02_pool_def : forall s l, (quitting s l = (negb (l =? 0) && (l =? s_stop s))) /\ (gone s l = (negb (l =? 0) && (l <? s_stop s))) /\
   io_idle s = forallb q_idle (tl (s_loops s)) /\
+  (forall t, no_handoff t = match t with TEstablish _ | TDestroy _ => false | _ => true end) /\
   (forall v, q_idle v = match q_batch v, q_spent v with [], [] => negb (q_drain v) | _, _ => false end).
 Proof. intros s l. repeat split. Qed.
 Print Assumptions C02_pool_def.
 
-(* H7 is exactly what the hypotheses add to ~TcpServer besides H2 *)
-Theorem C02_H7_is_the_guard : forall s, s_srv s = true -> has_task is_remove s = false -> has_task is_force s = false ->
-  (io_idle s = false -> step true s SrvDestroy = Rejected) /\ (io_idle s = true -> step true s SrvDestroy = step false s SrvDestroy).
+(* H7 is exactly what the hypotheses add to the exit of an io loop besides H8 *)
+Theorem C02_H7_is_the_guard : forall s l v, getl s l = Some v -> q_batch v = [] -> q_drain v = true -> quitting s l = true ->
+  (forallb no_handoff (q_pend v) = false -> step true s (EndBatch l) = Rejected) /\
+  (forallb no_handoff (q_pend v) = true -> outlived s l = false -> step true s (EndBatch l) = step false s (EndBatch l)).
 Proof. exact S02_H7_guard. Qed.
 Print Assumptions C02_H7_is_the_guard.
 
 (* ---- what fails outside the hypotheses (all replayed on the real code) ----------------------- *)
-(* H7: finding F-25, ~TcpServer while an io loop is inside a drain: the queued connectDestroyed is destroyed unrun with
-   the EventLoop, ~TcpConnection runs while kConnected (a: the io thread is in a write-complete callback, b: in front of the
-   connectEstablished of a connection accepted just before, c: inside a drain of an empty batch) *)
+(* H7: finding F-25, ~TcpServer with io threads: a queued connectDestroyed is destroyed unrun with the EventLoop, ~TcpConnection
+   runs while kConnected.  a: the io thread is in a write-complete callback when ~TcpServer runs, b: in front of the
+   connectEstablished of a connection accepted just before, c: inside a drain of an empty batch; d (REVIEW_E-1): nothing is going
+   on when ~TcpServer starts, two connections on one io loop: the first hand-off's wakeup() lets the io thread swap, the second
+   hand-off lands behind the batch.  In d every op but the last is accepted under H1-H8 *)
 Theorem C02_server_destroy_drops_queued_destroy_refuted :
-  run false (init_sys 1 false) w_pool_a = Fault /\ run false (init_sys 1 false) w_pool_b = Fault /\ run false (init_sys 1 false) w_pool_c = Fault /\
-  run true (init_sys 1 false) w_pool_a = Rejected /\ run true (init_sys 1 false) w_pool_b = Rejected /\ run true (init_sys 1 false) w_pool_c = Rejected /\
-  (exists s o k v, run false (init_sys 1 false) (firstn 8 w_pool_a) = Ok (s, o) /\ o = [OUp 1 0] /\ getc s 0 = Some k /\ k_st k = Connected /\
-     k_alive k = true /\ holders s 0 = 2 /\ getl s 1 = Some v /\ q_pend v = [TDestroy 0] /\ q_batch v = [] /\ q_drain v = true /\ s_stop s = 1 /\
-     step false s (EndBatch 1) = Fault) /\
-  (exists s o, run true (init_sys 1 false) (firstn 6 w_pool_a) = Ok (s, o) /\ has_task is_remove s = false /\ has_task is_force s = false /\
-     io_idle s = false /\ step true s SrvDestroy = Rejected) /\
+  run false (init_sys 1 false) w_pool_a = Fault /\ run false (init_sys 1 false) w_pool_b = Fault /\
+  run false (init_sys 1 false) w_pool_c = Fault /\ run false (init_sys 1 false) w_pool_d = Fault /\
+  run true (init_sys 1 false) w_pool_a = Rejected /\ run true (init_sys 1 false) w_pool_b = Rejected /\
+  run true (init_sys 1 false) w_pool_c = Rejected /\ run true (init_sys 1 false) w_pool_d = Rejected /\
+  (exists s0 o0, run true (init_sys 1 false) (firstn 6 w_pool_d) = Ok (s0, o0) /\ io_idle s0 = true /\
+     has_task is_remove s0 = false /\ has_task is_force s0 = false /\ s_calls s0 = []) /\
+  (exists s o k v, run true (init_sys 1 false) (firstn 11 w_pool_d) = Ok (s, o) /\ o = [OUp 1 0; OUp 1 1; ODown 1 0] /\
+     getc s 1 = Some k /\ k_st k = Connected /\ k_alive k = true /\ holders s 1 = 1 /\ getl s 1 = Some v /\
+     q_pend v = [TDestroy 1] /\ q_batch v = [] /\ q_drain v = true /\ s_stop s = 1 /\
+     step true s (EndBatch 1) = Rejected /\ step false s (EndBatch 1) = Fault) /\
   (exists s o, run true (init_sys 1 false)
-     [Accept; Swap 1; Run 1 true true; EndBatch 1; LSend 0 true true; Swap 1; Run 1 true true; EndBatch 1; SrvDestroy; Swap 1; Run 1 true true; EndBatch 1] = Ok (s, o) /\
-     o = [OUp 1 0; ODown 1 0; ODtor 1 0 true] /\ s_stop s = 2).
+     [Accept; Accept; Swap 1; Run 1 true true; Run 1 true true; EndBatch 1;
+      SrvDestroy; SrvDestroy; SrvDestroy; Swap 1; Run 1 true true; Run 1 true true; EndBatch 1] = Ok (s, o) /\
+     o = [OUp 1 0; OUp 1 1; ODown 1 0; ODown 1 1; ODtor 1 0 true; ODtor 1 1 true] /\ s_stop s = 2).
 Proof. exact W_pool. Qed.
 Print Assumptions C02_server_destroy_drops_queued_destroy_refuted.
 
 Theorem C02_pool_witness_def :
-  w_pool_a = [Accept; Swap 1; Run 1 true true; EndBatch 1; LSend 0 true true; Swap 1; SrvDestroy; Run 1 true true; EndBatch 1] /\
-  w_pool_b = [Accept; Swap 1; SrvDestroy; Run 1 true true; EndBatch 1] /\
-  w_pool_c = [Accept; Swap 1; Run 1 true true; EndBatch 1; Swap 1; SrvDestroy; EndBatch 1].
+  w_pool_a = [Accept; Swap 1; Run 1 true true; EndBatch 1; LSend 0 true true; Swap 1; SrvDestroy; SrvDestroy; Run 1 true true; EndBatch 1] /\
+  w_pool_b = [Accept; Swap 1; SrvDestroy; SrvDestroy; Run 1 true true; EndBatch 1] /\
+  w_pool_c = [Accept; Swap 1; Run 1 true true; EndBatch 1; Swap 1; SrvDestroy; SrvDestroy; EndBatch 1] /\
+  w_pool_d = [Accept; Accept; Swap 1; Run 1 true true; Run 1 true true; EndBatch 1;
+              SrvDestroy; Swap 1; Run 1 true true; SrvDestroy; SrvDestroy; EndBatch 1].
 Proof. repeat split. Qed.
 Print Assumptions C02_pool_witness_def.
 
@@ -512,8 +528,8 @@ Print Assumptions C02_gen_tie.
 
 (* ---- non-vacuity: three connections on three loops, a server, a client, a foreign shutdown in
    its micro-steps, a user reference, server and client destruction; every op accepted under
-   the hypotheses (H7: the io loops are in poll() when SrvDestroy runs; then both io loops take their last drain and leave:
-   s_stop = 3); the end state is quiescent (so C02_no_leak_partial applies to a reached state) ----- *)
+   the hypotheses (~TcpServer = two SrvDestroy steps: one live entry, then the members; no io loop swaps in between, so both
+   io loops take their hand-offs with their last drain and leave: s_stop = 3); the end state is quiescent (so C02_no_leak_partial applies to a reached state) ----- *)
 Example ex_owners_run : exists s o, run true (init_sys 2 false) ex_sys_ops = Ok (s, o) /\
   o = [OUp 0 2; OUp 1 0; OMsg 1 0; ODown 1 0; ODtor 100 0 true; OUp 2 1; ODown 2 1; ODtor 2 1 true; ODown 0 2; ODtor 0 2 true] /\
   (forall l v, getl s l = Some v -> q_all v = []) /\ s_calls s = [] /\ s_stop s = 3.
